@@ -61,7 +61,7 @@ Inductive vcase :=
      (* observed: client (0 sent / 1 configuration refused / 2 RoundTrip error, nothing sent); wire
         header values and body; server outcome (0 handler ran / 1 rejected / 2 panicked), status,
         and what the handler saw *)
-     (o_client : N) (o_wce : list string) (o_wbody : bytes) (o_wcl : Z)
+     (o_client : N) (o_wce : list string) (o_wbody : bytes) (o_wcl : Z) (o_wrw : option bytes)
      (o_kind : N) (o_status : Z) (o_hce : list string) (o_cl : Z) (o_data : bytes) (o_err : N)
 (* server only, sizes only (large bodies) *)
 | LC (max : Z) (algs : option (list string)) (custom : list (string * option N))
@@ -99,21 +99,21 @@ Definition ldec_tbl (t : list (N * ldres)) (c : codec) : ldres :=
 (* the model's answer for a case: the wire request (None = configuration refused) and the outcome *)
 Definition model_wire (c : vcase) : cres :=
   match c with
-  | EC type level ce body chunked rerr cerr _ _ _ enc _ _ _ _ _ _ _ _ _ _ _ _ =>
+  | EC type level ce body chunked rerr cerr _ _ _ enc _ _ _ _ _ _ _ _ _ _ _ _ _ =>
       client (enc_tbl (body_bytes body) enc) {| c_type := type; c_level := level |}
              {| q_ce := ce; q_body := body; q_stream := chunked; q_rerr := rerr; q_cerr := cerr |}
   | LC _ _ _ _ _ _ _ _ _ _ _ _ _ => CRefused
   end.
 
 (* (client outcome, wire) , server observable *)
-Definition model_out (c : vcase) : (N * option (list string * bytes * Z)) * (obs + lobs) :=
+Definition model_out (c : vcase) : (N * option (list string * bytes * Z * option bytes)) * (obs + lobs) :=
   match c with
-  | EC type level ce body chunked rerr cerr max algs custom enc decin dect _ _ _ _ _ _ _ _ _ _ =>
+  | EC type level ce body chunked rerr cerr max algs custom enc decin dect _ _ _ _ _ _ _ _ _ _ _ =>
       let sc := {| s_max := max; s_algs := algs; s_custom := custom |} in
       match model_wire c with
       | CRefused => ((1%N, None), inl (obs_of Panicked))
       | CError => ((2%N, None), inl (obs_of Panicked))
-      | CSent w => ((0%N, Some (w.(w_ce), w.(w_body), w.(w_cl))), inl (obs_of (server (dec_tbl decin dect) cdec_fixed sc w)))
+      | CSent w => ((0%N, Some (w.(w_ce), w.(w_body), w.(w_cl), w.(w_rewind))), inl (obs_of (server (dec_tbl decin dect) cdec_fixed sc w)))
       end
   | LC max algs custom ce n cl ldect _ _ _ _ _ _ =>
       let sc := {| s_max := max; s_algs := algs; s_custom := custom |} in
@@ -122,11 +122,12 @@ Definition model_out (c : vcase) : (N * option (list string * bytes * Z)) * (obs
 
 Definition check_case (c : vcase) : bool :=
   match c with
-  | EC _ _ _ _ _ _ _ _ _ _ _ _ _ o_client o_wce o_wbody o_wcl o_kind o_status o_hce o_cl o_data o_err =>
+  | EC _ _ _ _ _ _ _ _ _ _ _ _ _ o_client o_wce o_wbody o_wcl o_wrw o_kind o_status o_hce o_cl o_data o_err =>
       match model_out c with
       | ((k, None), _) => N.eqb k o_client && negb (N.eqb o_client 0)
-      | ((k, Some (wce, wbody, wcl)), inl o) =>
+      | ((k, Some (wce, wbody, wcl, wrw)), inl o) =>
           N.eqb k o_client && strs_eqb wce o_wce && bytes_eqb wbody o_wbody && Z.eqb wcl o_wcl
+          && option_eqb bytes_eqb wrw o_wrw
           && obs_eqb o (o_kind, o_status, o_hce, o_cl, o_data, o_err)
       | _ => false
       end
